@@ -15,7 +15,7 @@ Definition call_auths (cl : call) : auths :=
   | Deposit _ _ _ _ au | MintS _ _ _ _ au | Withdraw _ _ _ _ au | Redeem _ _ _ _ au
   | ATransfer _ _ _ au | AApprove _ _ _ _ au | STransfer _ _ _ au | STransferFrom _ _ _ _ au
   | SApprove _ _ _ _ au => au
-  | AMint _ _ | Advance _ | Query _ => []
+  | AMint _ _ | Advance _ | Query _ | SetAsset _ | SetOffset _ => []
   end.
 
 (* the amount argument of a call *)
@@ -29,6 +29,8 @@ Definition call_amount (cl : call) : Z :=
                | QConvShares a | QConvAssets a | QPrevDeposit a | QPrevMint a | QPrevWithdraw a | QPrevRedeem a => a
                | _ => 0
                end
+  | SetAsset _ => 0
+  | SetOffset off => off
   end.
 
 (* amounts are i128 values, the vault does not sign *)
@@ -59,16 +61,18 @@ Proof.
 Qed.
 
 (* ---------- the state invariant ---------- *)
-Definition Inv (s : state) : Prop :=
-  tok_inv (asset s) /\ tok_inv (share s) /\ (forall sp, fst (allow (asset s) V sp) = 0).
+Definition Inv (c : cfg) (s : state) : Prop :=
+  tok_inv (asset s) /\ tok_inv (share s) /\ (forall sp, fst (allow (asset s) V sp) = 0) /\ Stored c s.
 
-Lemma Inv_init n0 : Inv (init n0).
+Lemma Inv_init c n0 : Inv c (init c n0).
 Proof. repeat split; try apply tok_inv_empty. Qed.
+Lemma Inv_stored c s : Inv c s -> Stored c s.
+Proof. intros (_ & _ & _ & H). exact H. Qed.
 
-Lemma Inv_A_nonneg s : Inv s -> 0 <= total_assets s <= MAX128.
-Proof. intros (Ha & _ & _). pose proof (tok_inv_bal_le _ V Ha). destruct Ha as (_ & Hs & _). unfold total_assets. lia. Qed.
-Lemma Inv_S_nonneg s : Inv s -> 0 <= total_supply s <= MAX128.
-Proof. intros (_ & (_ & Hs & _) & _). exact Hs. Qed.
+Lemma Inv_A_nonneg c s : Inv c s -> 0 <= total_assets s <= MAX128.
+Proof. intros (Ha & _ & _ & _). pose proof (tok_inv_bal_le _ V Ha). destruct Ha as (_ & Hs & _). unfold total_assets. lia. Qed.
+Lemma Inv_S_nonneg c s : Inv c s -> 0 <= total_supply s <= MAX128.
+Proof. intros (_ & (_ & Hs & _) & _ & _). exact Hs. Qed.
 
 Lemma tok_inv_ext t t' : bal t' = bal t -> supply t' = supply t -> tok_inv t -> tok_inv t'.
 Proof. unfold tok_inv. intros -> ->. auto. Qed.
@@ -112,12 +116,12 @@ Record deposit_effect (s s' : state) (a sh : Z) (r f o : addr) : Prop := {
 }.
 
 Lemma deposit_internal_ok c s au r a sh f o s' :
-  deposit_internal c s au r a sh f o = Ok s' -> Inv s -> no_vault_auth au = true ->
+  deposit_internal c s au r a sh f o = Ok s' -> Inv c s -> no_vault_auth au = true ->
   deposit_effect s s' a sh r f o /\ auth_full au o = true /\
   0 <= a <= bal (asset s) f /\ 0 <= sh /\ supply (share s) + sh <= MAX128 /\
-  total_assets s' = total_assets s + a /\ Inv s'.
+  total_assets s' = total_assets s + a /\ Inv c s'.
 Proof.
-  unfold deposit_internal. intros H (Ha & Hs & Hz) Hnv. bsplit H a1 E1. bsplit H s1 E2.
+  unfold deposit_internal. intros H (Ha & Hs & Hz & Hst) Hnv. bsplit H uc Ec. bsplit H a1 E1. bsplit H s1 E2.
   inversion H; subst s'; clear H.
   apply update_mint in E2. destruct E2 as (Hsh & Hsup & ->).
   pose proof (no_vault_auth_full au Hnv) as HfV.
@@ -129,10 +133,11 @@ Proof.
     + constructor; cbn [now asset share bal supply allow]; auto.
       intros o' s0. unfold spent. rewrite N.eqb_refl. cbn [negb andb]. reflexivity.
     + unfold total_assets. cbn [asset bal]. apply move_to. exact HfV'.
-    + split; [|split]; cbn [asset share].
+    + split; [|split; [|split]]; cbn [asset share].
       * apply tok_inv_xfer; auto.
       * apply tok_inv_mint; auto.
       * exact Hz.
+      * exact Hst.
   - apply tok_transfer_from_ok in E1. destruct E1 as (Hau & Hx & t1 & Esp & ->).
     destruct (spend_allowance_ok _ _ _ _ _ _ _ Esp) as (Hxa & Hb1 & Hs1 & Hal & H0 & Hoth).
     split; [|split; [exact Hau|split; [exact Hx|split; [exact Hsh|split; [exact Hsup|split]]]]].
@@ -143,7 +148,7 @@ Proof.
       destruct (N.eq_dec f V) as [->|Hne].
       * destruct (spend_zero_owner _ _ _ _ _ _ _ Esp Hz) as [-> _]. rewrite move_self. lia.
       * apply move_to. exact Hne.
-    + split; [|split]; cbn [asset share].
+    + split; [|split; [|split]]; cbn [asset share].
       * apply (tok_inv_ext {| bal := move (bal (asset s)) f V a; supply := supply (asset s); allow := allow (asset s) |});
           [reflexivity|reflexivity|]. apply tok_inv_xfer; auto.
       * apply tok_inv_mint; auto.
@@ -151,6 +156,7 @@ Proof.
         destruct (N.eq_dec f V) as [->|Hne].
         -- destruct (spend_zero_owner _ _ _ _ _ _ _ Esp Hz) as [_ ->]. apply Hz.
         -- rewrite Hoth by (intros Heq; apply Hne; symmetry; exact Heq). apply Hz.
+      * exact Hst.
 Qed.
 
 (* ---------- withdraw_internal ---------- *)
@@ -168,12 +174,12 @@ Record withdraw_effect (s s' : state) (a sh : Z) (r ow o : addr) : Prop := {
 }.
 
 Lemma withdraw_internal_ok c s r ow a sh o s' :
-  withdraw_internal c s r ow a sh o = Ok s' -> Inv s ->
+  withdraw_internal c s r ow a sh o = Ok s' -> Inv c s ->
   withdraw_effect s s' a sh r ow o /\
   0 <= sh <= bal (share s) ow /\ 0 <= a <= total_assets s /\
-  total_assets s - a <= total_assets s' /\ Inv s'.
+  total_assets s - a <= total_assets s' /\ Inv c s'.
 Proof.
-  unfold withdraw_internal. intros H (Ha & Hs & Hz). bsplit H s0 E0. bsplit H s1 E1. bsplit H a1 E2.
+  unfold withdraw_internal. intros H (Ha & Hs & Hz & Hst). bsplit H s0 E0. bsplit H s1 E1. bsplit H uc Ec. bsplit H a1 E2.
   inversion H; subst s'; clear H.
   apply tok_transfer_ok in E2. destruct E2 as (_ & Hx & ->).
   apply update_burn in E1. destruct E1 as (Hsh & ->).
@@ -189,19 +195,20 @@ Proof.
   - unfold total_assets. cbn [asset bal].
     destruct (N.eq_dec r V) as [->|Hne]; [rewrite move_self; lia|].
     rewrite move_from by (intros Heq; apply Hne; symmetry; exact Heq). lia.
-  - split; [|split]; cbn [asset share].
+  - split; [|split; [|split]]; cbn [asset share].
     + apply tok_inv_xfer; auto.
     + apply (tok_inv_ext {| bal := upd (bal (share s)) ow (bal (share s) ow - sh); supply := supply (share s) - sh; allow := allow (share s) |});
         [reflexivity|reflexivity|]. apply tok_inv_burn; auto.
     + exact Hz.
+    + exact Hst.
 Qed.
 
 (* ---------- the four operations ---------- *)
 Lemma deposit_ok c s au a r f o s' sh evs :
-  deposit c s au a r f o = Ok (s', (sh, evs)) -> Inv s -> no_vault_auth au = true ->
+  deposit c s au a r f o = Ok (s', (sh, evs)) -> Inv c s -> no_vault_auth au = true ->
   preview_deposit c s a = Ok sh /\ evs = [(0%N, o, f, r, a, sh)] /\
   deposit_effect s s' a sh r f o /\ auth_full au o = true /\ 0 <= a <= bal (asset s) f /\ 0 <= sh /\
-  total_assets s' = total_assets s + a /\ Inv s'.
+  total_assets s' = total_assets s + a /\ Inv c s'.
 Proof.
   unfold deposit. intros H Hi Hnv. bsplit H u E0. bsplit H u1 E1. bsplit H sh0 E2. bsplit H s0 E3.
   inversion H; subst. destruct (deposit_internal_ok _ _ _ _ _ _ _ _ _ E3 Hi Hnv) as (H1 & H2 & H3 & H4 & H5 & H6 & H7).
@@ -209,10 +216,10 @@ Proof.
 Qed.
 
 Lemma mint_ok c s au x r f o s' a evs :
-  mint c s au x r f o = Ok (s', (a, evs)) -> Inv s -> no_vault_auth au = true ->
+  mint c s au x r f o = Ok (s', (a, evs)) -> Inv c s -> no_vault_auth au = true ->
   preview_mint c s x = Ok a /\ evs = [(0%N, o, f, r, a, x)] /\
   deposit_effect s s' a x r f o /\ auth_full au o = true /\ 0 <= a <= bal (asset s) f /\ 0 <= x /\
-  total_assets s' = total_assets s + a /\ Inv s'.
+  total_assets s' = total_assets s + a /\ Inv c s'.
 Proof.
   unfold mint. intros H Hi Hnv. bsplit H u E0. bsplit H u1 E1. bsplit H a0 E2. bsplit H s0 E3.
   inversion H; subst. destruct (deposit_internal_ok _ _ _ _ _ _ _ _ _ E3 Hi Hnv) as (H1 & H2 & H3 & H4 & H5 & H6 & H7).
@@ -220,12 +227,12 @@ Proof.
 Qed.
 
 Lemma withdraw_ok c s au a r ow o s' sh evs :
-  withdraw c s au a r ow o = Ok (s', (sh, evs)) -> Inv s ->
+  withdraw c s au a r ow o = Ok (s', (sh, evs)) -> Inv c s ->
   preview_withdraw c s a = Ok sh /\ evs = [(1%N, o, r, ow, a, sh)] /\
   (exists m, max_withdraw c s ow = Ok m /\ a <= m) /\
   withdraw_effect s s' a sh r ow o /\ auth_root au o = true /\
   0 <= sh <= bal (share s) ow /\ 0 <= a <= total_assets s /\
-  total_assets s - a <= total_assets s' /\ Inv s'.
+  total_assets s - a <= total_assets s' /\ Inv c s'.
 Proof.
   unfold withdraw. intros H Hi. bsplit H u E0. apply guard_ok in E0. bsplit H m E1. bsplit H u1 E2.
   apply guard_ok in E2. bsplit H sh0 E3. bsplit H s0 E4.
@@ -235,12 +242,12 @@ Proof.
 Qed.
 
 Lemma redeem_ok c s au x r ow o s' a evs :
-  redeem c s au x r ow o = Ok (s', (a, evs)) -> Inv s ->
+  redeem c s au x r ow o = Ok (s', (a, evs)) -> Inv c s ->
   preview_redeem c s x = Ok a /\ evs = [(1%N, o, r, ow, a, x)] /\
   x <= max_redeem s ow /\
   withdraw_effect s s' a x r ow o /\ auth_root au o = true /\
   0 <= x <= bal (share s) ow /\ 0 <= a <= total_assets s /\
-  total_assets s - a <= total_assets s' /\ Inv s'.
+  total_assets s - a <= total_assets s' /\ Inv c s'.
 Proof.
   unfold redeem. intros H Hi. bsplit H u E0. apply guard_ok in E0. bsplit H u1 E2.
   apply guard_ok in E2. bsplit H a0 E3. bsplit H s0 E4.
@@ -254,7 +261,7 @@ Lemma deposit_internal_effect c s au r a sh f o s' :
   deposit_internal c s au r a sh f o = Ok s' ->
   deposit_effect s s' a sh r f o /\ auth_full au o = true /\ 0 <= a <= bal (asset s) f /\ 0 <= sh.
 Proof.
-  unfold deposit_internal. intros H. bsplit H a1 E1. bsplit H s1 E2.
+  unfold deposit_internal. intros H. bsplit H uc Ec. bsplit H a1 E1. bsplit H s1 E2.
   inversion H; subst s'; clear H.
   apply update_mint in E2. destruct E2 as (Hsh & Hsup & ->).
   destruct (N.eqb o f) eqn:Eof.
@@ -275,7 +282,7 @@ Lemma withdraw_internal_effect c s r ow a sh o s' :
   withdraw_internal c s r ow a sh o = Ok s' ->
   withdraw_effect s s' a sh r ow o /\ 0 <= sh <= bal (share s) ow /\ 0 <= a <= total_assets s.
 Proof.
-  unfold withdraw_internal. intros H. bsplit H s0 E0. bsplit H s1 E1. bsplit H a1 E2.
+  unfold withdraw_internal. intros H. bsplit H s0 E0. bsplit H s1 E1. bsplit H uc Ec. bsplit H a1 E2.
   inversion H; subst s'; clear H.
   apply tok_transfer_ok in E2. destruct E2 as (_ & Hx & ->).
   apply update_burn in E1. destruct E1 as (Hsh & ->).
